@@ -114,10 +114,13 @@ struct vcnt {
 extern struct vcnt VCNT[MAX_CNT];
 extern unsigned int VCNT_N;
 
+extern char VO_OUTFILE[4096];
+
 static inline void vo_open(const char *outfile)
 {
 	char pth[4096];
 
+	snprintf(VO_OUTFILE, sizeof(VO_OUTFILE), "%s", outfile);
 	VO.f = fopen(outfile, "w");
 	if (!VO.f) {
 		perror(outfile);
@@ -254,6 +257,35 @@ static inline void nontrivial(uint64_t h)
 		fwrite(&h, sizeof(h), 1, VO.nt);
 }
 
+/* per-property variant: hashes go to <outfile>.nt.<prop>; mod > 1 keeps only h % mod == 0 (a lower bound) */
+static inline void nontrivial_for(const char *prop, uint64_t h, unsigned int mod)
+{
+	static struct {
+		char prop[8];
+		FILE *f;
+	} tab[8];
+	extern char VO_OUTFILE[4096];
+
+	if (VO.muted || (mod > 1 && h % mod))
+		return;
+	for (int i = 0; i < 8; i++) {
+		if (!tab[i].f) {
+			char pth[4200];
+
+			snprintf(tab[i].prop, sizeof(tab[i].prop), "%s", prop);
+			snprintf(pth, sizeof(pth), "%s.nt.%s", VO_OUTFILE, prop);
+			tab[i].f = fopen(pth, "w");
+			if (!tab[i].f)
+				return;
+		}
+		if (!strcmp(tab[i].prop, prop)) {
+			fwrite(&h, sizeof(h), 1, tab[i].f);
+			fflush(tab[i].f);
+			return;
+		}
+	}
+}
+
 static inline bool want_sample(void)
 {
 	return VO.samples < VO.max_samples;
@@ -311,6 +343,7 @@ static inline long argkv_l(int argc, char **argv, const char *key, long dflt)
 #define VCOMMON_GLOBALS      \
 	struct vout VO = {.progfd = -1}; \
 	struct vcnt VCNT[MAX_CNT];   \
+	char VO_OUTFILE[4096];       \
 	unsigned int VCNT_N;
 
 /* hex helper for samples/witnesses */
